@@ -542,6 +542,7 @@ static inline void mzd_row_add_offset(mzd_t *M, rci_t dstrow, rci_t srcrow, rci_
   word *dst             = mzd_row(M, dstrow) + startblock;
   word const mask_begin = __M4RI_RIGHT_BITMASK(m4ri_radix - coloffset % m4ri_radix);
   word const mask_end   = M->high_bitmask;
+  word const src_last   = src[wide - 1]; /* read now: src and dst are the same row when dstrow == srcrow */
 
   *dst++ ^= *src++ & mask_begin;
   --wide;
@@ -576,7 +577,7 @@ static inline void mzd_row_add_offset(mzd_t *M, rci_t dstrow, rci_t srcrow, rci_
    * We use i - 1 here to let the compiler know these are the same addresses
    * that we last accessed, in the previous loop.
    */
-  dst[i - 1] ^= src[i - 1] & ~mask_end;
+  dst[i - 1] ^= src_last & ~mask_end;
 
   __M4RI_DD_ROW(M, dstrow);
 }
